@@ -342,11 +342,11 @@ struct basic_string_view {
         }
 
         for (size_type outerIdx = pos; outerIdx <= size() - v.size(); ++outerIdx) {
-            if (unsafe_at(outerIdx) == v.front()) {
+            if (Traits::eq(unsafe_at(outerIdx), v.front())) {
                 auto found = [&] {
                     for (size_type innerIdx = 0; innerIdx < v.size(); ++innerIdx) {
                         auto offset = outerIdx + innerIdx;
-                        if (unsafe_at(offset) != v[innerIdx]) {
+                        if (not Traits::eq(unsafe_at(offset), v[innerIdx])) {
                             return false;
                         }
                     }
@@ -465,7 +465,7 @@ struct basic_string_view {
     {
         for (size_type idx = pos; idx < size(); ++idx) {
             for (auto const c : v) {
-                if (c == unsafe_at(idx)) {
+                if (Traits::eq(c, unsafe_at(idx))) {
                     return idx;
                 }
             }
@@ -581,7 +581,7 @@ struct basic_string_view {
         do { // NOLINT(cppcoreguidelines-avoid-do-while)
             auto const current = unsafe_at(offset);
             for (auto const ch : v) {
-                if (ch == current) {
+                if (Traits::eq(ch, current)) {
                     return offset;
                 }
             }
@@ -641,7 +641,7 @@ struct basic_string_view {
         }
         auto offset = etl::clamp<size_type>(pos, 0, size() - 1);
         do { // NOLINT(cppcoreguidelines-avoid-do-while)
-            auto equals = [&](auto ch) { return ch == unsafe_at(offset); };
+            auto equals = [&](auto ch) { return Traits::eq(ch, unsafe_at(offset)); };
             if (etl::none_of(v.begin(), v.end(), equals)) {
                 return offset;
             }
